@@ -60,6 +60,14 @@ var c06Values = []map[string]any{
 	{"i": 1.0, "a": l(1.0, 2.0, 3.0)}, {"s": "a&b=c"},
 }
 
+var c06QuickValues = len(c06Values)
+
+// further values of the thorough tier: signs, large integers, reserved characters, several fields at once
+var c06ThoroughValues = []map[string]any{
+	{"i": -5.0}, {"i": 2147483648.0}, {"i": 0.0}, {"s": "a+b c%"}, {"s": "ü/é?#"}, {"s": "1"}, {"s": "true"}, {"b": false}, {"a": l(0.0)}, {"a": l(-1.0, 10.0, 100.0, 1000.0)},
+	{"i": 3.0, "b": true}, {"s": "x", "wo": "w"}, {"b": true, "ro": "r"}, {"i": 7.0, "s": "=&", "b": false, "a": l(1.0, 2.0), "wo": "w"},
+}
+
 // per-property encodings for urlencoded bodies (style/explode of the array property)
 type c06Enc struct {
 	name    string
@@ -277,6 +285,9 @@ var c06ErrPath = regexp.MustCompile(`(?:Error at "/|property ")([A-Za-z]+)`)
 func c06Decoding(r *core.Run, x *explore.X) {
 	format := explore.Pick(x, []string{"json", "urlencoded", "multipart", "multipart-json-parts"})
 	req := explore.Pick(x, c06Requireds)
+	if r.Tier == "thorough" && len(c06Values) == c06QuickValues {
+		c06Values = append(c06Values, c06ThoroughValues...)
+	}
 	vi := x.Choose(len(c06Values))
 	enc := c06Encs[0]
 	if format == "urlencoded" {
